@@ -17,6 +17,11 @@ Ties (all compared inside Coq by vm_compute, model = coq/theories/Stats.v):
   Magnitudes: both streams visit LONG calls (1.5e5 .. 6e5 us = several 1e8 cycles, inside one 32-bit counter epoch)
   that are regular down to a few cycles next to ordinary kernels; repeated records: a kernel's records may be logged
   two or three times (exactly repeated), every copy is a slice of the export and a call of the statistics.
+  Lane overlaps: kernels whose first slice starts a few ns (below / around / far above 5 ns) before the last slice of
+  their predecessor on the lane ends, under every way of resolving them: -O tid (default), -O drop (the slice leaves
+  export and statistics), -O warn, -O shift (start moved by whole ns, dur shortened, args.orig_dur kept): the CSVs
+  must describe the EXPORTED slices under each.  A start moved by -O shift is off the exact grid; a case whose exactly
+  compared cells come within 1e-7 of a '%.3f' midpoint is left to the oracle (near_print_midpoint).
   * names: the queue name calculate_stats creates vs Stats.name_val ('Cmpt Exec' containment, [_-]\\d+ masking).
   * file names: PipelineContextTool.generate_filename vs Stats.gen_filename.
 Oracle (independent of the model, exact Fractions): per (pid, masked name) recompute calls/total/mean/median/min/
@@ -97,7 +102,10 @@ TRUSTED = [
 ASSUMPTIONS = [
     "kernel slices have dur > 0 and args.TS1..TS5 (else the code raises AssertionError / KeyError; the model agrees)",
     "slices end at or after 0 and start below 1e30 (default event limiter) for 'elapsed = latest end - earliest start'",
-    "no -F/--filter (it drops events after the statistics stage), no -t; pids are integers",
+    "no -F/--filter (it drops events after the statistics stage), no -t; pids are integers; no -O async (aborts "
+    "with KeyError 'dur' on a partial overlap, DESIGN.md section 6)",
+    "slices trimmed by -O shift are off the exact grid: the Coq tie skips a case whose exactly compared cells lie "
+    "within 1e-7 of a '%.3f' midpoint (the oracle, with its tolerance of 1/1000 printed unit, judges every case)",
     "-f pddf is claimed with --keep_names or --disable_tb only (the frame has no args.orig_name, rewritten names "
     "cannot be masked as in the file); a rank's device cycles stay inside one 32-bit counter epoch",
     "the exported kernel slices (name = args.orig_name when renamed) are a permutation, as (masked name, pid, ts, "
@@ -110,7 +118,13 @@ COQ_IMPORTS = "From AiuModel Require Import Stats."
 COQ_TY = "(list ev * (list (Z * Z * Z) * list Z))"
 G = 1024            # grid: multiples of 2^-10
 E2E_OPTS = [[], ["--tb"], ["--keep_names"], ["--disable_tb"], ["--keep_prep"], ["-O", "tid"], ["--drop_globals"],
-            ["-M"]]
+            ["-M"], ["-O", "shift"], ["-O", "drop"], ["-O", "warn"]]
+# ways to resolve slices that partially overlap their predecessor on one lane (-O tid is the default; -O async is
+# outside the domain: it aborts with KeyError 'dur' on the unchanged tree, DESIGN.md section 6)
+OVERLAP_OPTS = [["-O", "shift"], ["-O", "shift"], ["-O", "shift"], ["-O", "drop"], ["-O", "warn"], ["-O", "tid"], [],
+                ["-O", "shift", "--tb"], ["-O", "shift", "--keep_names"], ["-O", "shift", "--disable_tb"],
+                ["-O", "shift", "--keep_prep"], ["-O", "drop", "--keep_names"], ["-O", "warn", "--tb"],
+                ["-O", "shift", "-M"], ["-O", "drop", "--keep_prep"], ["-O", "warn", "--drop_globals"]]
 PHASES = ["DmaI", "Cmpt Prep", "Cmpt Exec", "DmaO"]
 
 
@@ -482,6 +496,36 @@ def oracle(slices, obs, check_extremes=True):
     return bad
 
 
+def off_grid(slices):
+    """kernel slices whose ts or dur is not a multiple of 2^-11 us (-O shift moved a start by whole ns)"""
+    return sum(1 for e in slices if (_fr(e["ts"]) * 2048).denominator != 1 or (_fr(e["dur"]) * 2048).denominator != 1)
+
+
+def near_print_midpoint(slices, eps=Fraction(1, 10 ** 7)):
+    """True when one of the cells the Coq tie compares EXACTLY (Total / Median / Min / Max, rank total / start / end /
+    elapsed; '%.3f') lies within eps of a printing midpoint: off the exact grid the code's double sums may land on
+    the other side of it (double rounding is not modelled); such a case is judged by the oracle only."""
+    groups, per = {}, {}
+    for e in slices:
+        d, t = _fr(e["dur"]), _fr(e["ts"])
+        groups.setdefault((e["pid"], MASK.sub("_[N]", e["name"])), []).append(d)
+        pp = per.setdefault(e["pid"], [Fraction(0), t, t + d])
+        pp[0], pp[1], pp[2] = pp[0] + d, min(pp[1], t), max(pp[2], t + d)
+    vals = []
+    for d in groups.values():
+        sd, n = sorted(d), len(d)
+        vals += [sum(d), sd[0], sd[-1], sd[n // 2] if n % 2 else (sd[n // 2 - 1] + sd[n // 2]) / 2]
+    for tot, st, en in per.values():
+        vals += [tot, st, en, en - st]
+    for v in vals:
+        if (v * 2048).denominator == 1:
+            continue                    # a grid value: the code's doubles are exact
+        x = v * 1000 - Fraction(1, 2)
+        if abs(x - round(x)) <= eps * 1000:
+            return True
+    return False
+
+
 def in_domain(case):
     """extremes are claimed for slices ending at or after 0 and starting below 1e30"""
     if case["kind"] != "direct":
@@ -624,6 +668,8 @@ def gen_direct(r):
 
 PDDF_OPTS = [["--keep_names"], ["--keep_names"], ["--disable_tb"], ["--keep_names", "--keep_prep"],
              ["--keep_names", "-O", "tid"], ["--keep_names", "--drop_globals"], ["--keep_names", "-M"]]
+PDDF_OVERLAP_OPTS = [["--keep_names", "-O", "shift"], ["--disable_tb", "-O", "shift"], ["--keep_names", "-O", "drop"],
+                     ["--keep_names", "-O", "warn"], ["--keep_names"], ["--keep_names", "-O", "shift", "--keep_prep"]]
 EPOCH = 1 << 32     # the device counters are 32 bit: a rank's cycles stay inside one epoch
 
 
@@ -638,6 +684,11 @@ def gen_e2e(r):
     short = [n for n in names if MASK.sub("_[N]", n) != long_m] or ["aux"]
     # repeated records: the runtime logged a kernel twice (three times)
     p_rep = r.choice([0.15, 0.3, 1.0]) if r.random() < 0.35 else 0.0
+    # lane overlaps: a kernel's first slice starts a few ns (cycles) BEFORE the last slice of its predecessor on the
+    # lane ends - the rounding artefact the -O modes exist for (below / around / far above the 5 ns of -O shift)
+    p_ov = r.choice([0.25, 0.5, 0.8]) if r.random() < 0.4 else 0.0
+    thr = max(1, int(0.005 * f))            # cycles in 5 ns
+    has_ov = False
     ranks = []
     for pid in range(nr):
         H = 1000.0 + r.randint(0, 64 * G) / G
@@ -645,6 +696,7 @@ def gen_e2e(r):
         ks = []
         tie = r.random() < 0.3
         plain_rank = long_m is not None and pid > 0 and r.random() < 0.4
+        prev_end, cmax = None, c
         for ki in range(r.randint(1, 9)):
             seg = [r.randint(1, 4096) for _ in range(4)]
             if tie:
@@ -657,18 +709,32 @@ def gen_e2e(r):
                     base = r.choice(short)
                 else:
                     seg[2] = long_len + r.randint(0, long_jit)
+            ph = ["Cmpt Exec"] + [p for p in ("DmaI", "Cmpt Prep", "DmaO") if r.random() < 0.5]
+            if prev_end is not None and r.random() < p_ov:
+                if r.random() < 0.6:
+                    ph = ["Cmpt Exec"] + (["DmaO"] if r.random() < 0.5 else [])
+                x = r.random()
+                d = r.randint(1, thr) if x < 0.6 else thr + r.randint(0, 2) if x < 0.8 else r.randint(thr + 1, 400)
+                fi = min(PHASES.index(p) for p in ph)
+                if r.random() < 0.9:
+                    seg[fi] = max(seg[fi], d + r.randint(1, 64))        # partial overlap (else maybe nested)
+                c2 = prev_end - d - sum(seg[:fi])
+                if c2 >= 1:
+                    c, has_ov = c2, True
             cs = [c]
             for s in seg:
                 cs.append(cs[-1] + s)
-            ph = ["Cmpt Exec"] + [p for p in ("DmaI", "Cmpt Prep", "DmaO") if r.random() < 0.5]
             k = {"base": base, "c": cs, "phases": ph}
             if r.random() < p_rep:
                 k["rep"] = r.choice([2, 2, 2, 3])
             ks.append(k)
-            c = cs[-1] + r.randint(1, 8192)
+            prev_end = cs[max(PHASES.index(p) for p in ph) + 1]
+            cmax = max(cmax, cs[-1])
+            c = cmax + r.randint(1, 8192)
         host = [{"name": "host op", "ts": 900.0 + i, "dur": 0.5} for i in range(r.randint(0, 2))]
         ranks.append({"pid": pid, "H": H, "kernels": ks, "host": host})
-    case = {"kind": "e2e", "f": f, "opts": r.choice(E2E_OPTS),
+    ov_opts = has_ov and r.random() < 0.8
+    case = {"kind": "e2e", "f": f, "opts": r.choice(OVERLAP_OPTS if ov_opts else E2E_OPTS),
             "out": r.choice(["res.json", "res.json", "my.run.json", "res", "run.v1/res", "run.v1/res.json"]),
             "ranks": ranks}
     # output formats / ways the export leaves the run: json file (default), json text through get_output_data()
@@ -676,14 +742,29 @@ def gen_e2e(r):
     x = r.random()
     if x < 0.3:
         case["fmt"] = "pddf"
-        case["opts"] = r.choice(PDDF_OPTS)
+        case["opts"] = r.choice(PDDF_OVERLAP_OPTS if ov_opts else PDDF_OPTS)
         if r.random() < 0.5:
             case["nofile"] = True
     elif x < 0.4 and "--tb" not in case["opts"]:
         case["nofile"] = True
     if nr == 1 and r.random() < 0.25:
         case["api_in"] = True
+    if has_ov and "drop" in case["opts"]:
+        case["lossy"] = True        # -O drop removes the overlapping slice (from the export AND the statistics)
     return case
+
+
+def lane_overlaps(case):
+    """number of kernels whose first slice starts before the last slice of the previous kernel of the rank ends"""
+    n = 0
+    for rk in case["ranks"]:
+        for a, b in zip(rk["kernels"], rk["kernels"][1:]):
+            if not (a["phases"] and b["phases"]):
+                continue
+            a_end = a["c"][max(PHASES.index(p) for p in a["phases"]) + 1]
+            b_start = b["c"][min(PHASES.index(p) for p in b["phases"])]
+            n += int(b_start < a_end)
+    return n
 
 
 def case_key(case):
@@ -837,8 +918,12 @@ def run(ctx):
             "valid": 0, "malformed": 0, "outside_extremes_domain": 0, "rows_with_total_ties": 0,
             "masked_name_collisions": 0, "single_call_groups": 0, "corpus": len(corpus),
             "e2e_export": {}, "e2e_in_memory_input": 0, "cases_with_repeated_records": 0,
-            "repeated_records_and_frame_export": 0, "long_regular_groups": 0}
+            "repeated_records_and_frame_export": 0, "long_regular_groups": 0,
+            "e2e_cases_with_lane_overlaps": 0, "e2e_lane_overlaps_by_overlap_option": {},
+            "e2e_cases_with_trimmed_kernel_slices": 0, "trimmed_kernel_slices": 0,
+            "off_grid_cases_left_to_the_oracle_near_print_midpoint": 0}
     t_e2e = 0.0
+    skip_tie = set()
     for case in cases:
         t0 = time.time()
         obs = drive(case, ctx.work)
@@ -861,6 +946,12 @@ def run(ctx):
             dist["masked_name_collisions"] += int(len({(s["pid"], s["name"]) for s in sl}) > len(obs["rows"]))
             if case["kind"] == "e2e":
                 dist["e2e_exec_slices"] += len(sl)
+                og = off_grid(sl)
+                dist["trimmed_kernel_slices"] += og
+                dist["e2e_cases_with_trimmed_kernel_slices"] += int(og > 0)
+                if og and near_print_midpoint(sl):
+                    skip_tie.add(len(terms) - 1)
+                    dist["off_grid_cases_left_to_the_oracle_near_print_midpoint"] += 1
             # groups of >= 2 calls, each >= 1e5 us, spread below 0.1 us (units of the cells: 1/1000 us)
             dist["long_regular_groups"] += sum(1 for rw in obs["rows"] if rw["calls"] >= 2 and rw["min"] >= 10 ** 8
                                                and rw["max"] - rw["min"] < 100)
@@ -876,10 +967,14 @@ def run(ctx):
             rp = any(k.get("rep", 1) > 1 for rk in case["ranks"] for k in rk["kernels"])
             dist["cases_with_repeated_records"] += int(rp)
             dist["repeated_records_and_frame_export"] += int(rp and case.get("fmt") == "pddf")
+            if lane_overlaps(case):
+                dist["e2e_cases_with_lane_overlaps"] += 1
+                o_ = case.get("opts", [])
+                _bump(dist["e2e_lane_overlaps_by_overlap_option"], o_[o_.index("-O") + 1] if "-O" in o_ else "tid")
         else:
             _bump(dist["events"], min(len(case["events"]) // 5 * 5, 30))
     idx_d = [j for j, c in enumerate(cases) if c["kind"] != "e2e"]
-    idx_e = [j for j, c in enumerate(cases) if c["kind"] == "e2e"]
+    idx_e = [j for j, c in enumerate(cases) if c["kind"] == "e2e" and j not in skip_tie]
     bad_d, _, secs_d = coqrun.run_cases("C12", COQ_IMPORTS, COQ_TY, "tie_val", [terms[j] for j in idx_d], shard=150)
     bad_e, _, secs_e = coqrun.run_cases("C12_e2e", COQ_IMPORTS, COQ_TY, "e2e_val", [terms[j] for j in idx_e],
                                         shard=100)
@@ -910,7 +1005,9 @@ def run(ctx):
                 f"streams: corpus {len(corpus)}, direct {n_direct} (exact grid 2^-10 us; 8% with one malformed kernel "
                 f"slice, 6% all-negative timestamps, 25% with long regular groups of 1.5e5-6e5 us per call), end to "
                 f"end {n_e2e} (1-4 ranks, 1-9 kernels per rank, f in "
-                "{512,1024,2048} MHz, 8 option sets; 30% with a long regular group of 1.5e8-6e8 cycles per call, 35% "
+                "{512,1024,2048} MHz, 11 + 16 option sets; 40% with kernels overlapping their predecessor on the "
+                "lane by 1 .. 400 cycles, mostly run under -O shift / drop / warn / tid; 30% with a long regular "
+                "group of 1.5e8-6e8 cycles per call, 35% "
                 "with exactly repeated kernel records, export = json file / json text of get_output_data() / pandas "
                 "frame of -f pddf to file or get_output_data(), single ranks also through api://jsonbuffer); plus "
                 "name and file-name ties",
